@@ -247,7 +247,19 @@ func SmallText(r *rand.Rand) []byte {
 // Message returns (message, class). Classes follow the C11/C12 quantifiers.
 func Message(r *rand.Rand, counter int) (string, string) {
 	u := fmt.Sprintf("m%d", counter)
-	switch r.IntN(14) {
+	switch r.IntN(20) {
+	case 14:
+		return "", "empty"
+	case 15:
+		return "  \n" + u + " body after a blank first line", "blank-first-line"
+	case 16:
+		return "\n" + u + " body after an empty first line", "empty-first-line"
+	case 17:
+		return u + " " + strings.Repeat("x", 4096-len(u)-1), "line-4096"
+	case 18:
+		return u + " subject\n\n" + strings.Repeat("y", 5000) + "\nend", "line-5000"
+	case 19:
+		return u + " " + strings.Repeat("z", 9000), "line-9000"
 	case 12:
 		return u + " raise coverage to 100% (was 87%)", "percent"
 	case 13:
@@ -282,7 +294,7 @@ func Message(r *rand.Rand, counter int) (string, string) {
 func Identity(r *rand.Rand) (name, email, class string) {
 	names := []struct{ n, c string }{
 		{"Alice", "plain"}, {"Alice B. Carol", "spaces"}, {"José Núñez", "non-ascii"}, {"山田 太郎", "non-ascii"},
-		{"O'Neil", "quote"}, {"a>b", "gt"}, {"Dr. X (PhD)", "paren"}, {"x=y", "equals"}, {"#1 dev", "hash"}, {"[bot]", "bracket"},
+		{"O'Neil", "quote"}, {"a>b", "gt"}, {"Mr 100% X", "percent"}, {"%s %d", "percent-verbs"}, {"Dr. X (PhD)", "paren"}, {"x=y", "equals"}, {"#1 dev", "hash"}, {"[bot]", "bracket"},
 	}
 	emails := []string{"a@example.com", "first.last@sub.example.org", "x_y+tag@a-b.co", "u@d.io", "A.B-c@x1.y2.museum"}
 	n := pick(r, names)
